@@ -24,12 +24,15 @@ Proof.
   cbn [fst snd sadd smul sdiv ssub s_of_Z Rops]. replace (n - 0 + 1)%Z with (n + 1)%Z by lia. reflexivity.
 Qed.
 
-Theorem simpson2d_is_tensor : forall (f : R -> R -> C) (ax bx ay by_ : R) divs, (0 < divs)%Z ->
+(* the translated simpson2d with the normalised count abstracted: the body only depends on n = simpson2d_norm divs *)
+Theorem simpson2d_is_tensor : forall (f : R -> R -> C) (ax bx ay by_ : R) divs, (0 < simpson2d_norm divs)%Z ->
   simpson2d Rops f ax bx ay by_ divs =
-  apply_rule2 Rops (tensor Rops (simpson_rule_n Rops ax bx divs) (simpson_rule_n Rops ay by_ divs)) f.
+  apply_rule2 Rops (tensor Rops (simpson_rule_n Rops ax bx (simpson2d_norm divs)) (simpson_rule_n Rops ay by_ (simpson2d_norm divs))) f.
 Proof.
   intros f ax bx ay by_ divs Hd. rewrite apply_rule2_tensor_R.
-  unfold simpson2d. cbv zeta. unfold zrange. replace (divs + 1 - 0)%Z with (divs + 1)%Z by lia.
+  unfold simpson2d, simpson2d_norm, simpson2d_norm_divs in *. cbv zeta in *.
+  match type of Hd with (0 < ?e)%Z => set (n := e) in * end. clearbody n.
+  unfold zrange. replace (n + 1 - 0)%Z with (n + 1)%Z by lia.
   rewrite !zenumerate_map_zseq.
   rewrite vsum_R, !map_map. cbn [vscale Rops fst snd smul sdiv ssub s_of_Z].
   apply pair_eq; cbn [fst snd].
@@ -43,15 +46,21 @@ Proof.
     rewrite !steps_value_R by exact Hd. unfold wR. field. apply not_0_IZR. lia.
 Qed.
 
-Lemma simpson2d_accepts_spec : forall d, simpson2d_accepts d = true <-> (Z.even d = true /\ (4 <= d)%Z).
-Proof. intros d. unfold simpson2d_accepts. rewrite !andb_true_iff, Z.leb_le. tauto. Qed.
+(* accepted divs give an even count >= 2 (independent of how the source obtains it) *)
+Lemma simpson2d_accepts_norm : forall d, simpson2d_accepts d = true ->
+  Z.even (simpson2d_norm d) = true /\ (2 <= simpson2d_norm d)%Z.
+Proof.
+  intros d H. unfold simpson2d_accepts, simpson2d_norm, simpson2d_norm_divs in *. cbv zeta in *. bool_facts.
+  split; [bool_goal; zmod_lia | zmod_lia].
+Qed.
 
-(* separable integrand: product of the two 1-D rule values (same divs on both axes) *)
+(* separable integrand: product of the two 1-D rule values (same count on both axes) *)
 Theorem simpson2d_separable : forall (p q : R -> C) (ax bx ay by_ : R) divs, simpson2d_accepts divs = true ->
   simpson2d Rops (fun x y => Cmult (p x) (q y)) ax bx ay by_ divs =
-  Cmult (apply_rule Rops (simpson_rule_n Rops ax bx divs) p) (apply_rule Rops (simpson_rule_n Rops ay by_ divs) q).
+  Cmult (apply_rule Rops (simpson_rule_n Rops ax bx (simpson2d_norm divs)) p)
+        (apply_rule Rops (simpson_rule_n Rops ay by_ (simpson2d_norm divs)) q).
 Proof.
-  intros p q ax bx ay by_ divs Ha. apply simpson2d_accepts_spec in Ha. destruct Ha as [He Hd].
+  intros p q ax bx ay by_ divs Ha. apply simpson2d_accepts_norm in Ha. destruct Ha as [He Hd].
   rewrite simpson2d_is_tensor by lia. apply tensor_separable.
 Qed.
 
@@ -62,7 +71,7 @@ Theorem simpson2d_exact_bicubic : forall (cp cq : list C) (ax bx ay by_ : R) div
   Cmult (cpint Rops cp ax bx) (cpint Rops cq ay by_).
 Proof.
   intros cp cq ax bx ay by_ divs Ha Hp Hq. rewrite simpson2d_separable by exact Ha.
-  apply simpson2d_accepts_spec in Ha. destruct Ha as [He Hd].
+  apply simpson2d_accepts_norm in Ha. destruct Ha as [He Hd].
   rewrite !simpson_rule_n_exact by (try assumption; lia). reflexivity.
 Qed.
 
@@ -79,13 +88,13 @@ Qed.
 Theorem simpson2d_reverse_x : forall (f : R -> R -> C) (ax bx ay by_ : R) divs, simpson2d_accepts divs = true ->
   simpson2d Rops f bx ax ay by_ divs = Copp (simpson2d Rops f ax bx ay by_ divs).
 Proof.
-  intros f ax bx ay by_ divs Ha. apply simpson2d_accepts_spec in Ha. destruct Ha as [He Hd].
+  intros f ax bx ay by_ divs Ha. apply simpson2d_accepts_norm in Ha. destruct Ha as [He Hd].
   rewrite !simpson2d_is_tensor by lia. rewrite !apply_rule2_tensor_R. unfold Copp. cbn [fst snd].
   f_equal.
-  - rewrite (rapply_ext' _ _ (fun y => -1 * rapply (simpson_rule_n Rops ax bx divs) (fun x => fst (f x y)))).
+  - rewrite (rapply_ext' _ _ (fun y => -1 * rapply (simpson_rule_n Rops ax bx (simpson2d_norm divs)) (fun x => fst (f x y)))).
     2:{ intros y. rewrite simpson_rule_n_reverse_real by (try assumption; lia). ring. }
     rewrite rapply_scal. ring.
-  - rewrite (rapply_ext' _ _ (fun y => -1 * rapply (simpson_rule_n Rops ax bx divs) (fun x => snd (f x y)))).
+  - rewrite (rapply_ext' _ _ (fun y => -1 * rapply (simpson_rule_n Rops ax bx (simpson2d_norm divs)) (fun x => snd (f x y)))).
     2:{ intros y. rewrite simpson_rule_n_reverse_real by (try assumption; lia). ring. }
     rewrite rapply_scal. ring.
 Qed.
@@ -93,20 +102,18 @@ Qed.
 Theorem simpson2d_reverse_y : forall (f : R -> R -> C) (ax bx ay by_ : R) divs, simpson2d_accepts divs = true ->
   simpson2d Rops f ax bx by_ ay divs = Copp (simpson2d Rops f ax bx ay by_ divs).
 Proof.
-  intros f ax bx ay by_ divs Ha. apply simpson2d_accepts_spec in Ha. destruct Ha as [He Hd].
+  intros f ax bx ay by_ divs Ha. apply simpson2d_accepts_norm in Ha. destruct Ha as [He Hd].
   rewrite !simpson2d_is_tensor by lia. rewrite !apply_rule2_tensor_R. unfold Copp. cbn [fst snd].
   f_equal; apply simpson_rule_n_reverse_real; try assumption; lia.
 Qed.
 
 (* ------------------------------------------------------------------ accepted parameters *)
-(* on even divs >= 6 both entry points accept; the implication fails on every odd divs >= 5 (Findings/C12_accept.v) *)
+(* on even divs whatever the 1-D form accepts the 2-D form accepts; the implication fails on every odd divs >= 5
+   (Findings/C12_accept.v) *)
 Theorem accept_1d_2d_even : forall d, Z.even d = true -> simpson_accepts d = true -> simpson2d_accepts d = true.
 Proof.
-  intros d He Ha. apply simpson_accepts_iff in Ha. apply simpson2d_accepts_spec. split; [exact He | lia].
+  intros d He Ha. unfold simpson_accepts, simpson2d_accepts in *. cbv zeta in *. bool_facts. bool_goal; zmod_lia.
 Qed.
-
-Theorem accept_2d_iff : forall d, simpson2d_accepts d = true <-> (Z.even d = true /\ (4 <= d)%Z).
-Proof. exact simpson2d_accepts_spec. Qed.
 
 (* ------------------------------------------------------------------ number of integrand calls of the fixed rules *)
 Lemma list_sum_const : forall {A} (l : list A) (k : nat), list_sum (map (fun _ => k) l) = (length l * k)%nat.
@@ -115,18 +122,21 @@ Proof. intros A l k; unfold list_sum; induction l as [|x l IH]; cbn [map fold_ri
 Theorem simpson_calls_count : forall (f : R -> C) (a b : R) divs, simpson_accepts divs = true ->
   simpson_calls Rops f (fun _ => 1%nat) a b divs = Z.to_nat (simpson_norm divs + 1).
 Proof.
-  intros f a b divs Ha. apply simpson_accepts_spec in Ha. unfold simpson_calls, simpson_norm in *. cbv zeta.
+  intros f a b divs Ha. apply simpson_accepts_norm in Ha. unfold simpson_calls, simpson_norm, simpson_norm_divs in *. cbv zeta in *.
   rewrite map_map. rewrite (list_sum_const _ 1%nat). unfold zrange_incl. rewrite zseq_length. lia.
 Qed.
 
 Theorem simpson2d_calls_count : forall (f : R -> R -> C) (ax bx ay by_ : R) divs, simpson2d_accepts divs = true ->
-  simpson2d_calls Rops f (fun _ _ => 1%nat) ax bx ay by_ divs = (Z.to_nat (divs + 1) * Z.to_nat (divs + 1))%nat.
+  simpson2d_calls Rops f (fun _ _ => 1%nat) ax bx ay by_ divs =
+  (Z.to_nat (simpson2d_norm divs + 1) * Z.to_nat (simpson2d_norm divs + 1))%nat.
 Proof.
-  intros f ax bx ay by_ divs Ha. apply simpson2d_accepts_spec in Ha. destruct Ha as [He Hd].
-  unfold simpson2d_calls. cbv zeta. unfold zrange. rewrite !zenumerate_map_zseq, !map_map.
-  rewrite (map_ext _ (fun _ => Z.to_nat (divs + 1))).
+  intros f ax bx ay by_ divs Ha. apply simpson2d_accepts_norm in Ha. destruct Ha as [He Hd].
+  unfold simpson2d_calls, simpson2d_norm, simpson2d_norm_divs in *. cbv zeta in *.
+  match type of Hd with (2 <= ?e)%Z => set (n := e) in * end. clearbody n.
+  unfold zrange. rewrite !zenumerate_map_zseq, !map_map.
+  rewrite (map_ext _ (fun _ => Z.to_nat (n + 1))).
   2:{ intros iy. rewrite (list_sum_const _ 1%nat), zseq_length. lia. }
-  rewrite list_sum_const, zseq_length. replace (divs + 1 - 0)%Z with (divs + 1)%Z by lia. reflexivity.
+  rewrite list_sum_const, zseq_length. replace (n + 1 - 0)%Z with (n + 1)%Z by lia. reflexivity.
 Qed.
 
 (* ------------------------------------------------------------------ linearity of the translated entry points *)
@@ -135,7 +145,7 @@ Theorem simpson_linear : forall (alpha beta : C) (f g : R -> C) (a b : R) divs,
   Cplus (Cmult alpha (simpson Rops f a b divs)) (Cmult beta (simpson Rops g a b divs)).
 Proof. intros. rewrite !simpson_is_rule. apply rule_linear. Qed.
 
-Theorem simpson2d_linear : forall (alpha beta : C) (f g : R -> R -> C) (ax bx ay by_ : R) divs, (0 < divs)%Z ->
+Theorem simpson2d_linear : forall (alpha beta : C) (f g : R -> R -> C) (ax bx ay by_ : R) divs, (0 < simpson2d_norm divs)%Z ->
   simpson2d Rops (fun x y => Cplus (Cmult alpha (f x y)) (Cmult beta (g x y))) ax bx ay by_ divs =
   Cplus (Cmult alpha (simpson2d Rops f ax bx ay by_ divs)) (Cmult beta (simpson2d Rops g ax bx ay by_ divs)).
 Proof. intros. rewrite !simpson2d_is_tensor by assumption. apply rule2_linear. Qed.
@@ -144,3 +154,12 @@ Lemma simpson2d_reverse : forall (f : R -> R -> C) (ax bx ay by_ : R) divs, simp
   simpson2d Rops f bx ax ay by_ divs = Copp (simpson2d Rops f ax bx ay by_ divs) /\
   simpson2d Rops f ax bx by_ ay divs = Copp (simpson2d Rops f ax bx ay by_ divs).
 Proof. intros; split; [apply simpson2d_reverse_x | apply simpson2d_reverse_y]; assumption. Qed.
+
+Lemma accept_norm : forall d,
+  (simpson_accepts d = true -> Z.even (simpson_norm d) = true /\ (2 <= simpson_norm d)%Z) /\
+  (simpson2d_accepts d = true -> Z.even (simpson2d_norm d) = true /\ (2 <= simpson2d_norm d)%Z).
+Proof.
+  intros d. split; intros H.
+  - split; [apply simpson_norm_even | apply simpson_accepts_norm; exact H].
+  - apply simpson2d_accepts_norm; exact H.
+Qed.
